@@ -709,4 +709,14 @@ V("c07-dot-stays-attached", "C07", "break", "R07.7", "b64=false payloads contain
   "rfc7797/compact.py", "_re_urlsafe = re.compile(\"^[a-zA-Z0-9-_~]+$\")", "_re_urlsafe = re.compile(\"^[a-zA-Z0-9\\\\-._~]+$\")")
 V("c13-as-dict-returns-internal", "C13", "break", "R13.5", "non-public as_dict returns (and updates) the key's own dict",
   "rfc7517/models.py", "        data = self.dict_value.copy()\n        if private is not False:", "        data = self.dict_value\n        if private is not False:")
+V("c03-roundtrip-payload-from-wrong-segment", "C03", "break", "R03.7", "extract_compact decodes the payload from the signature segment",
+  "rfc7515/compact.py", "        payload = urlsafe_b64decode(payload_segment)", "        payload = urlsafe_b64decode(signature_segment)")
+V("c03-roundtrip-signature-over-other-input", "C03", "break", "R03.7", "verify_compact checks the signature over payload '.' header",
+  "rfc7515/compact.py", "    signing_input = obj.segments[\"header\"] + b\".\" + obj.segments[\"payload\"]\n    sig = urlsafe_b64decode", "    signing_input = obj.segments[\"payload\"] + b\".\" + obj.segments[\"header\"]\n    sig = urlsafe_b64decode")
+V("c03-benign-roundtrip-join", "C03", "benign", "", "sign_compact joins the three segments with b'.'.join",
+  "rfc7515/compact.py", "    return signing_input + b\".\" + signature", "    return b\".\".join([header_segment, payload_segment, signature])")
+V("c04-roundtrip-iv-from-tag-segment", "C04", "break", "R04.7", "extract_compact decodes the iv from the tag segment",
+  "rfc7516/compact.py", "        \"iv\": urlsafe_b64decode(iv_segment),", "        \"iv\": urlsafe_b64decode(tag_segment),")
+V("c04-roundtrip-tag-not-encoded", "C04", "break", "R04.7", "perform_encrypt stores the raw tag as the encoded segment",
+  "rfc7516/message.py", "    obj.base64_segments[\"tag\"] = urlsafe_b64encode(tag)", "    obj.base64_segments[\"tag\"] = tag")
 
